@@ -31,7 +31,7 @@ DATA_CANDIDATES = ["DB", "DW", "DD", "DQ", "DT", "DO", "DN", "DC", "DC.B", "DC.W
     sorted(RESERVE_OPS)
 
 # the main dialects for the generic statements (CPU, filler instruction)
-DIALECTS = ["z80", "68000", "8051", "16c84", "320c25", "6502", "6809", "8086", "msp430", "56000", "320c30",
+DIALECTS = ["z80", "68000", "8051", "16c84", "320c25", "6502", "6809", "8086", "msp430", "320c30",
             "at90s8515"]
 
 FUNC_ARGS = {
